@@ -388,6 +388,8 @@ HarmB ==
            \cup {Harm("CylinderSegment", "axis (r1 > 0) beyond the faces", Seg(<<A, 3 * A, 4 * A, 0, 6>>, g[1], g[2], P1), <<0, 0, z>>, 1) : z \in {2 * A + 200}}
            \cup {Harm("Cylinder", "axis beyond the bases", Cyl(A, g[1], g[2], P1), <<0, 0, z>>, 1) : z \in {3 * A + 200}}
            \cup {Harm("Cylinder", "hull extension r = r0", Cyl(A, g[1], g[2], P1), <<2 * A, 0, z>>, 1) : z \in {3 * A + 200}}
+           \* the radius ratio r/r0 = 1/20 (where the diametral field switches from its series to the general form), in free space beyond a base
+           \cup {Harm("Cylinder", "r/r0 = 0.05 beyond the bases", Src("Cylinder", g[1], g[2], <<40 * A, 6 * A>>, pol, <<>>), <<A, 0, z>>, 1) : z \in {3 * A + 200}, pol \in {P1, P2}}
            \cup {Harm("Circle", "axis r = 0", Cir(A, g[1], g[2], 2), <<0, 0, z>>, 1) : z \in {200, -A}}
            \cup {Harm("Circle", "loop plane z = 0 outside", Cir(A, g[1], g[2], 2), <<2 * A + 250, 0, 0>>, 1)}
            \cup {Harm("Cuboid", "centre line / octant planes", Cub(A, g[1], g[2], P1), loc, 1) : loc \in {<<0, 0, 4 * A + 200>>, <<2 * A + 200, 0, A>>, <<2 * A + 250, 3 * A, 4 * A>>}}
